@@ -56,10 +56,87 @@ def check(ctx):
     ctx.rule("C10-E", "the context is rebuilt per call and never stored")
     for rid, fn in (("C10-A", rule_a), ("C10-B", rule_b), ("C10-C", rule_c), ("C10-D", rule_d), ("C10-E", rule_e)):
         ctx.guard(rid, fn)
+    ctx.rule("C10-F", "the parsed document is read-only for html2text: every mutating access to a field of a DOM node (borrow_mut, "
+             "replace, set, take, swap, get_mut on children / parent / attrs / contents / template_contents) lies in the vendored "
+             "DOM module, and the only such function html2text's own code calls (Node::get_parent) puts back what it takes — "
+             "so converting the same RcDom twice gives the same tree")
+    ctx.guard("C10-F", rule_f)
     from .. import widths as _w
     ctx.guard("C10-D", _w.rule_estimates_only_at_render, "C10-D")
     from . import C11
     ctx.guard("C10-B", C11.rule_a_as, "C10-B")
+
+
+DOM_MUTATORS = ("borrow_mut", "replace", "set", "take", "swap", "replace_with", "get_mut", "as_ptr", "try_borrow_mut", "update")
+DOM_FILE = "src/markup5ever_rcdom.rs"
+
+
+def rule_f(ctx):
+    F = ctx.facts
+    from ..util import direct_field
+    inside = {}
+    n_out = 0
+    for b in F.bodies.values():
+        for bb, t in b.calls(lambda cd, t: callee_method(t) in DOM_MUTATORS):
+            if not t["args"]:
+                continue
+            f = direct_field(b, t["args"][0])
+            if not (f and "markup5ever_rcdom::Node" in f[0]):
+                continue
+            if b.span.startswith(DOM_FILE):
+                inside.setdefault(b.root if b.kind == "Closure" else b.id, []).append((b, bb, t, f))
+            else:
+                n_out += 1
+                ctx.violation("C10-F", "dom-mutation@%s:%s.%s" % (fn_key(b), f[1], callee_method(t)), t["span"], b.id,
+                              "%s() on a DOM node's `%s` outside the DOM module: building a render tree (or matching a selector) "
+                              "changes the caller's document, so a second conversion of the same RcDom differs from the first"
+                              % (callee_method(t), f[1]))
+    # positive control: the query finds the DOM module's own mutation sites
+    ctx.floor("C10-F", "mutating accesses to DOM node fields inside the DOM module (positive control)", sum(len(v) for v in inside.values()), 10)
+    if not n_out:
+        ctx.ok("C10-F", "no-dom-mutation-outside-the-dom-module", "", "", "0 sites", how="auto")
+    # which of the mutating functions does html2text's own code call?
+    called = set()
+    for b in F.bodies.values():
+        if b.span.startswith(DOM_FILE):
+            continue
+        for bb, t in b.calls(lambda cd, t: cd in inside):
+            called.add(callee_def(t))
+    for fid in sorted(called):
+        fb = F.bodies[fid]
+        sites = inside[fid]
+        # restore discipline: every take()/replace() of a field is followed on every path to a return by a set() of the same field
+        okc = True
+        for (b2, bb, t, f) in sites:
+            m = callee_method(t)
+            if m == "set":
+                continue
+            if m not in ("take", "replace") or b2 is not fb:
+                okc = False
+                continue
+            sets = [x for (b3, x, t3, f3) in sites if b3 is fb and callee_method(t3) == "set" and f3 == f]
+            # (taking a `None` leaves the cell as it was: the edge on which the taken value is None needs no restore)
+            none_edges = set()
+            for a in fb.reachable():
+                ta = fb.term(a)
+                if ta["k"] == "switch" and callee_method(t) == "take":
+                    _neg, src = fb.switch_source(a)
+                    if src and src[0] == "discr" and is_bare(src[1]) and is_bare(t["dest"]) and src[1]["l"] == t["dest"]["l"]:
+                        some = {tb for v, tb in ta["targets"] if v == 1}
+                        none_edges |= {(a, x) for x in fb.succ(a) if x not in some}
+            seen, stack = set(), [t["target"]] if t.get("target") is not None else []
+            while stack:
+                x = stack.pop()
+                if x in seen or x in sets:
+                    continue
+                seen.add(x)
+                stack += [y for y in fb.succ(x) if (x, y) not in none_edges and not fb.is_cleanup(y)]
+            leak = [x for x in seen if fb.term(x)["k"] == "return"] if t.get("target") is not None else [0]
+            if leak:
+                okc = False
+        ctx.check(okc, "C10-F", "called-dom-mutator-restores:%s" % fid.split("::")[-1], fb.span, fb.id,
+                  "%s is called from html2text's own code and changes a DOM node without putting the value back on every path" % fid)
+    ctx.info("C10-F", "DOM-module functions with mutating accesses that html2text's own code calls: %s" % sorted(called))
 
 
 def public_roots(F):
